@@ -281,6 +281,17 @@ func (p *grpcConnectionPool) Get(ctx context.Context, target *route.Target) (*gr
 }
 
 func (p *grpcConnectionPool) newConnection(ctx context.Context, target *route.Target) (*grpc.ClientConn, error) {
+	// one connection per backend: calls which find no connection at the same
+	// time must not all dial, the connections of the losers would never be
+	// closed. Dialing does not block, so it can be done under the lock.
+	p.lock.Lock()
+	defer p.lock.Unlock()
+
+	key := makeGRPCTargetKey(target)
+	if conn := p.connections[key]; conn != nil && conn.GetState() != connectivity.Shutdown {
+		return conn, nil
+	}
+
 	opts := []grpc.DialOption{
 		grpc.WithDefaultCallOptions(grpc.CallCustomCodec(grpc_proxy.Codec()), grpc.MaxCallRecvMsgSize(p.cfg.Proxy.GRPCMaxRxMsgSize)),
 	}
@@ -302,7 +313,7 @@ func (p *grpcConnectionPool) newConnection(ctx context.Context, target *route.Ta
 	conn, err := grpc.DialContext(ctx, target.URL.Host, opts...)
 
 	if err == nil {
-		p.Set(target, conn)
+		p.connections[key] = conn
 	}
 
 	return conn, err
